@@ -147,6 +147,55 @@ def r2(ctx, facts, cfg):
     ok = len(lams) >= 2 and all(l.calls(r"::_dispatch_transit_event_to_sinks$") for l in lams)
     ctx.ob("C18.R2f", "_process_transit_event:replay-callback-dispatches", ok,
            "every replay callback writes the stored statement through the normal dispatch (%d callback(s))" % len(lams), fn=f)
+    # R2i: event routing: each arm is entered exactly on its own event
+    ev = {}
+    for bid, b in g.blocks.items():
+        c = g.term_cond(bid)
+        nc = norm_cmp(c) if c is not None else None
+        if nc and nc[0] in ("==", "!=") and any(is_call(x, r"MacroMetadata::event$") for x in walk(c)):
+            for x in walk(c):
+                if x["k"] == "DeclRefExpr" and x.get("dk") == "EnumConstant" and x.get("name", "").startswith("quill::MacroMetadata::"):
+                    ev.setdefault(x["name"].split("::")[-1], []).append((bid, "T" if nc[0] == "==" else "F"))
+    setcap = npos(f, f.calls(BS + "set_capacity$"))
+    proc_trigger = [q for p_ in proc for q in g.positions(p_) if g.exists_path(dpos, [q])]
+    proc_flush = [q for p_ in proc for q in g.positions(p_) if not g.exists_path(dpos, [q])]
+    def only_on(positions, event):
+        return bool(positions) and event in ev and not g.exists_path([g.entry_node], positions, avoid_edges=ev[event])
+    ok = only_on(dpos + spos + proc_trigger, "Log") and only_on(setcap, "InitBacktrace") and only_on(proc_flush, "FlushBacktrace")
+    ctx.ob("C18.R2i", "_process_transit_event:event-routing", ok,
+           "dispatch, store and the triggered replay happen only for Event::Log, the capacity is set only for Event::InitBacktrace, the "
+           "unconditional replay only for Event::FlushBacktrace (event tests found: %s)" % sorted(ev), fn=f)
+    # R2j: the ring is used only when it exists; a Backtrace statement without a ring is an error, not silently dropped; InitBacktrace
+    # creates the ring exactly when there is none
+    st_tests = []
+    for bid, b in g.blocks.items():
+        c = g.term_cond(bid)
+        if c is None:
+            continue
+        core, neg = core_and_neg(c)
+        cs_ = strip(core, casts=True)
+        m = [x for x in walk(cs_) if x["k"] == "MemberExpr" and x.get("mname") == "backtrace_storage"]
+        if m and (cs_["k"] == "MemberExpr" or is_call(cs_, r"shared_ptr<.*>::operator bool$|__shared_ptr<.*>::operator bool$")) and not any(is_call(x, BS + r"\w+$") for x in walk(cs_)):
+            st_tests.append((bid, "F" if neg else "T"))  # label of 'ring exists'
+    uses = spos + [q for p_ in proc for q in g.positions(p_)]
+    throws = g.pos_of(lambda n: isnode(n) and n.get("k") == "CXXThrowExpr")
+    ok_exist = bool(st_tests) and not g.exists_path([g.entry_node], uses, avoid_edges=st_tests)
+    # the store's own test: 'no ring' ends in a throw
+    ok_throw = False
+    for (b, l) in st_tests:
+        if any(g.exists_path([tnode(g, b)], [q], avoid_edges=[(b, other(l))]) for q in spos):
+            ok_throw = any(p in throws for p in straight_after(g, b, other(l)))
+    mk = [n for n in f.walk() if ((n["k"] == "BinaryOperator" and n["op"] == "=") or (n["k"] == "CXXOperatorCallExpr" and n.get("callee", "").endswith("operator="))) and
+          any(x["k"] == "MemberExpr" and x.get("mname") == "backtrace_storage" for x in walk(n.get("lhs") if n["k"] == "BinaryOperator" else n["args"][0])) and
+          any(is_call(x, r"^std::make_shared<") for x in walk(n.get("rhs") if n["k"] == "BinaryOperator" else n["args"][1]))]
+    mkp = npos(f, mk)
+    ok_make = bool(mkp) and bool(setcap) and not g.exists_path([g.entry_node], mkp, avoid_edges=[(b, other(l)) for (b, l) in st_tests]) and \
+        not g.exists_path([g.entry_node], setcap, avoid_nodes=mkp, avoid_edges=[(b, l) for (b, l) in st_tests if
+                                                                                 any(g.exists_path([tnode(g, b)], [q]) for q in mkp)])
+    ctx.ob("C18.R2j", "_process_transit_event:ring-exists-when-used", ok_exist and ok_throw and ok_make,
+           "store and replay are reached only on the 'ring exists' outcome (%s); a Backtrace statement of a logger without a ring ends "
+           "in a throw, it is not silently dropped (%s); InitBacktrace creates the ring exactly when there is none and sets the capacity "
+           "of an existing ring on every path (%s)" % (ok_exist, ok_throw, ok_make), fn=f)
     # process(): loop of size() iterations from _index with wrap, callback each, clear afterwards
     p = facts.need(BS + "process", cfg)[0]
     pg = p.g
@@ -234,6 +283,20 @@ def r3(ctx, facts, cfg):
     ctx.ob("C18.R3b", "BacktraceStorage::store:overwrite-oldest-then-advance", slot_ok and wrap_ok and order_ok,
            "when full, slot _index (the oldest) is overwritten and _index then advances by one with wrap at capacity-1 "
            "(slot: %s, wrap: %s, order: %s)" % (slot_ok, wrap_ok, order_ok), fn=s)
+    # R3d: both arms store the event and the thread identity that were handed in
+    pids = [p_["did"] for p_ in s.rec["params"]]
+    def carries_all(n):
+        return all(any(x["k"] == "DeclRefExpr" and x.get("did") == pid for x in walk(n)) for pid in pids)
+    appc = [c for c in s.calls(r"std::vector<.*>::(emplace_back|push_back)") if is_this_field(call_obj(c), "_stored_events")]
+    ste_vars = [vid for vid, i in s.var_inits().items() if isnode(i) and any(in_subtree(c, i) for c in slot)]
+    wr = [c for c in s.calls(r"::operator=$") if c["k"] == "CXXOperatorCallExpr" and
+          (var_ref(c["args"][0]) in ste_vars or any(in_subtree(sl, c["args"][0]) for sl in slot))]
+    wrp = npos(s, wr)
+    ok = bool(appc) and all(carries_all(c) for c in appc) and bool(wr) and all(carries_all(c["args"][1]) for c in wr) and \
+        bool(sp) and not g.exists_path(sp, [g.exit_node], avoid_nodes=wrp)
+    ctx.ob("C18.R3d", "BacktraceStorage::store:stores-what-was-given", ok,
+           "the appended element and the overwritten slot are built from the event, the thread id and the thread name passed in, and "
+           "the overwrite arm assigns the slot on every path", fn=s)
     # R3c: the overwrite arm needs a slot: unreachable when the capacity (hence the ring) is zero/empty
     zero_edges = []
     for bid, b in g.blocks.items():
